@@ -19,7 +19,7 @@
 (* Scenarios marked as races replay the listed known findings with the     *)
 (* stub as scheduler; their expected predicate failures carry the race tag.*)
 (***************************************************************************)
-EXTENDS AdfSem, AdfSyntax, Integers, Json, IOUtils, TLC
+EXTENDS AdfSem, AdfSyntax, ServerShapes, Integers, Json, IOUtils, TLC
 
 Rec == ndJsonDeserialize(IOEnv.TRACE)
 
@@ -155,6 +155,16 @@ CheckHttp(r) ==
   \* (an unnamed add gets a generated name: any accepted add of this person explains a running Parse)
   /\ \A i \in DOMAIN shown : \A t \in RangeOf(shown[i].running) :
        Report(<<r.p, shown[i].name, t>> \in asked \/ (t = "Parse" /\ \E a \in asked : a[1] = r.p /\ a[3] = "Parse" /\ a[2] = ""), r.id, "C16", <<"running-task-nobody-started-for-this-problem", t>>)
+  \* conformance with the service model (drift only): the commands this request sent to the database are exactly the
+  \* footprint of its handler in Server.tla - same commands, same collections, same FILTER KEYS - and every task result is
+  \* written with update_one {name, username}
+  /\ LET own == SelectSeq(r.db, LAMBDA e : ~e.task)
+         obs == [i \in DOMAIN own |-> <<own[i].cmd, own[i].coll, RangeOf(own[i].keys)>>]
+         named == (r.op # "add") \/ r.args.name # ""
+     IN /\ (race # "none" \/ "concurrent" \in DOMAIN r \/ MatchCmds(obs, 1, HandlerCommands(r.op, r.had_cookie, r.status, named), 1)
+             \/ PrintT(<<"DRIFT", l, r.id, <<"handler-footprint", r.op, r.status>> >>))
+        /\ ((\A e \in RangeOf(r.db) : e.task => RangeOf(e.keys) = TaskWriteKeys)
+             \/ PrintT(<<"DRIFT", l, r.id, "task-write-footprint">>))
   \* C16: content of every shown problem
   /\ \A i \in DOMAIN shown : CheckProblem(shown[i], r.id, "http", quiet /\ "final" \in DOMAIN r)
   \* C16: solving unparseable code is refused
